@@ -300,7 +300,7 @@ func (i *Interp) visitInstr(fr *frame, instr ssa.Instruction) continuation {
 	case *ssa.MakeMap:
 		fr.env[instr] = &mapV{}
 	case *ssa.Range:
-		fr.env[instr] = i.rangeIter(fr.get(instr.X), instr.X.Type())
+		fr.env[instr] = i.rangeIter(fr, fr.get(instr.X), instr.X.Type())
 	case *ssa.Next:
 		fr.env[instr] = i.next(fr.get(instr.Iter))
 	case *ssa.FieldAddr:
